@@ -279,7 +279,17 @@ type c10Conn struct {
 func c10Hostile(g gen.G, pool map[uint16][][]byte, attMode bool) c10Conn {
 	var cn c10Conn
 	cn.Close = core.Pick(g.Rand, []string{"fin", "rst", "fin", "linger"})
-	switch g.Intn(10) {
+	switch g.Intn(11) {
+	case 10: // sub-package games on ONE message ID: contradictory totals, numbers beyond an earlier total, repeated packet 1
+		id := core.Pick(g.Rand, []uint16{0x0801, 0x0200, 0x0704, 0x0900, 0x0102})
+		bcd := []byte{0, 0, 0, 0x44, 0x66, byte(0x50 + g.Intn(5))}
+		pairs := [][2]uint16{{2, 1}, {5, 4}, {5, 5}, {1, 1}, {3, 3}, {3, 1}, {2, 3}, {65535, 1}, {65535, 65535}, {4, 1}, {2, 2}, {0, 1}, {1, 0}, {300, 256}, {256, 1}}
+		for k := 2 + g.Intn(5); k > 0; k-- {
+			pr := pairs[g.Intn(len(pairs))]
+			body := g.Bytes(g.Intn(12))
+			cn.Writes = append(cn.Writes, ref.Build(ref.Params{ID: id, BCD: bcd, Serial: g.U16(), Fragmented: true, Sum: pr[0], No: pr[1], Body: body}))
+		}
+		return cn
 	case 0: // connect and close
 		return cn
 	case 1: // random bytes
